@@ -99,11 +99,12 @@ Known findings of the unchanged tree (details, reproductions and suggested repai
   conditions counting multiplicity but only 2 distinct ones is evaluated (cosine 1.0, rho-a 0.0, corr raises) instead of NaN;
   the same through `eval_dual_bootstrap_random(n_pattern=2)`, input_class `test-sets-lt3-conditions`.
 
-Pending triage (found by the dimension sweeps; registrations behind `if False:  # pending triage: <class>`)
-* `narrow-int,cosine-pooling` (clause noise-ceiling; all families): `pool_rdm(method='cosine')` squares the dissimilarities in their
-  own dtype: uint8 wraps modulo 256 (silently wrong cosine noise ceilings), int16 overflows to a negative mean square (NaN pooled
-  RDM -> `ValueError: rdm1 and rdm2 have different nan positions`), wherever typed data are pooled without having passed through
-  `subsample_pattern` (which makes them float).
+Found by the dimension sweeps
+* (repaired in /repo 6c46c3d0 while this sweep was written; the cases are registered as `dtype=uint8,cosine` / `dtype=int16,cosine`)
+  `pool_rdm(method='cosine')` squared the dissimilarities in their own dtype: uint8 wrapped modulo 256 (silently wrong cosine
+  noise ceilings), int16 overflowed to a negative mean square (NaN pooled RDM -> `ValueError: rdm1 and rdm2 have different nan
+  positions`), wherever typed data were pooled without having passed through `subsample_pattern` (which makes them float).
+Pending triage (registrations behind `if False:  # pending triage: <class>`)
 * `single-rdm,pattern-bootstrap` (`eval_dual_bootstrap_random(boot_type='pattern')` on one RDM; reported under evaluations, no
   Result): the routine passes n_rdm=data.n_rdm to `Result` whatever is resampled; `_correct_1d` divides by n_rdm - 1 = 0.
 """
@@ -1352,16 +1353,11 @@ def _sweeps(cases, thorough, seeds, mk, extra=(), quick_half=None):
                 continue
             for method in (METHODS if thorough else (METHODS[(i + seed) % 3],)):
                 i += 1
-                if kw.get('dtype') in NARROW_INT and method == 'cosine':
-                    # pool_rdm squares the dissimilarities in their own integer type (uint8: silently wrong cosine noise
-                    # ceilings, int16: NaN pooled RDM -> ValueError) wherever the typed data are pooled without passing
-                    # through subsample_pattern
-                    if False:  # pending triage: narrow-int,cosine-pooling
-                        cases.append((mk(i, method, seed, **kw), 'narrow-int,cosine-pooling'))
-                    if thorough:
-                        continue
-                    method = METHODS[1 + i % 2]
                 cases.append((mk(i, method, seed, **kw), ic))
+                if kw.get('dtype') in NARROW_INT and method != 'cosine' and not thorough:
+                    # uint8 / int16 under cosine in every family: squares of the dissimilarities leave the type's range (found by
+                    # this sweep in pool_rdm: wrapped squares -> wrong cosine noise ceilings / NaN pooled RDM; repaired in 6c46c3d0)
+                    cases.append((mk(i, 'cosine', seed, **kw), ic + ',cosine'))
 
 
 def tier_c(run, thorough):
